@@ -146,6 +146,8 @@ def execute(case: dict):
                   "footer": bool(dec0.doc.comments()) and dec0.doc.comments()[-1][1] > (dec0.shape.target.end_byte if dec0.shape.editable else 0),
                   "header": bool(dec0.doc.comments()) and dec0.doc.comments()[0][1] == 0}
     base_facts["trailing_comment"] = _has_trailing_comment(dec0)
+    base_facts["multiline_value"] = any("\n" in (o.get("value") or "") for o in ops)
+    base_facts["inline_target"] = dec0.shape.editable and b"\n" not in dec0.doc.data[dec0.shape.target.start_byte:dec0.shape.target.end_byte]
     for mode in ("live", "restart"):
         f = dict(base_facts, mode=mode)
         keys.append(digest([law, mode, doc, ops]))
